@@ -13,15 +13,7 @@ import IsoVerif.Model.Profiles
 namespace IsoVerif.Model.C19Callers
 open IsoVerif.Gen IsoVerif.Model IsoVerif.Model.C14
 
-/-- second conjunct of `ExonCorrector.is_valid_intron_chain`: at least one exon base between consecutive introns -/
-def intronsSpaced : List Iv → Bool
-  | [] => true
-  | [_] => true
-  | a :: b :: t => decide (a.2 + 1 < b.1) && intronsSpaced (b :: t)
-
-/-- `ExonCorrector.is_valid_intron_chain` -/
-def validIntronChain (introns : List Iv) : Bool :=
-  introns.all (fun i => decide (i.1 ≤ i.2)) && intronsSpaced introns
+-- `intronsSpaced` / `validIntronChain` (`ExonCorrector.is_valid_intron_chain`) live in `Model/Corrector.lean` (namespace C14)
 
 /-- tail of `correct_assigned_read` (repaired): the new intron list is tested BEFORE it is handed to
     `junctions_from_blocks`; then the exon chain is tested as before -/
